@@ -54,3 +54,16 @@ func NewToken(t ybase.Token) ybase.Token {
 		VEnd:   NewPos(t.End()),
 	}
 }
+
+// AccidentalValue returns the canonical spelling of an accidental token: "#" for SHARP
+// and "b" for FLAT, whichever rune the text used.
+func AccidentalValue(t ybase.Token) string {
+	switch t.Type() {
+	case SHARP:
+		return "#"
+	case FLAT:
+		return "b"
+	default:
+		return t.Value()
+	}
+}
